@@ -31,8 +31,24 @@ fn sigma(prog: &Prog) -> impl Fn(&Value, &[Op]) -> Vec<Op> + '_ {
             if !used(&|x| matches!(x, Op::Observe(..))) {
                 v.push(Op::Observe(2, g0.clone()));
             }
-            if !used(&|x| matches!(x, Op::SetVar(..))) {
+            if !used(&|x| matches!(x, Op::SetVar(_, Val::Int(_)))) {
                 v.push(Op::SetVar(g0.clone(), Val::Int(7)));
+            }
+        }
+        // `()` assigned over a list-valued global: the stored value keeps the old list's origins,
+        // so it differs from the argument; the observer must be told the stored one
+        if !used(&|x| matches!(x, Op::SetVar(_, Val::EmptyList))) {
+            for g in &prog.globals {
+                if o["globals"][g].as_str().map(|s| s.starts_with("List[")).unwrap_or(false) {
+                    if !h.iter().any(|x| matches!(x, Op::Observe(_, v) if v == g)) {
+                        if !v.contains(&Op::Observe(2, g.clone())) {
+                            v.push(Op::Observe(2, g.clone()));
+                        }
+                    } else {
+                        v.push(Op::SetVar(g.clone(), Val::EmptyList));
+                    }
+                    break;
+                }
             }
         }
         if let Some(g1) = prog.globals.get(1)
@@ -266,7 +282,7 @@ pub fn run(tier: Tier) -> i32 {
     });
     let extra = mc_extras(
         &stats,
-        json!({"history_depth": h, "segment_family": [k, a], "programs": set.len(), "programs_done": done, "alphabet": ["Cont", "Choose(i)", "Observe(o2,g0)", "Unobserve(o0,Some(g1))", "Unobserve(o0,None)", "SetVar(g0,7)", "Reset", "LoadInto"]}),
+        json!({"history_depth": h, "segment_family": [k, a], "programs": set.len(), "programs_done": done, "alphabet": ["Cont", "Choose(i)", "Observe(o2,g0)", "Unobserve(o0,Some(g1))", "Unobserve(o0,None)", "SetVar(g0,7)", "Observe(o2,gl) then SetVar(gl,()) for the first list-valued global gl", "Reset", "LoadInto"]}),
         set.len(),
         done,
         secs,
